@@ -1,5 +1,6 @@
 import Amqp.Lemmas.Alloc
 import Amqp.Gen.Skel
+import Amqp.Gen.ChanErr
 /-!
 # C10 — channel numbers are unique among live channels, bounded and safely reused
 
@@ -201,6 +202,11 @@ theorem exhausted_raises (a : A) :
     rw [hn] at h; simp only at h; subst h
     exact (nextId_none a a' hn).1
   · exact nextId_exhausted a
+
+/-- `_close_channel`: CLOSING first (an application `close()` that comes now backs off, the number is not free
+    yet), then the CloseOk, then the local clean-up, the reason, and CLOSED last (regenerated) -/
+theorem close_channel_order : Gen.ChanErr.closeChannelOrder =
+    ["state:CLOSING", "closeok", "drop-tags", "clear-inbound", "reason", "state:CLOSED"] := by decide
 
 /-- opening a channel when all numbers are in use reports the error and changes neither the
     registry nor any channel -/
